@@ -542,7 +542,25 @@ func run(c Case) hx.Verdict {
 	mk := func(k Key) (fsmodel.FS, error) {
 		return encryptfs.NewEncryptFS(base, settings(k, c.Key.HostOnly, ciph))
 	}
-	encW, e1 := mk(c.Key)
+	// The writing filespace is configured the way a careful caller does it: secret and salt are
+	// slices of a larger key buffer (spare capacity), the same secret slice is then used to set
+	// up another filespace with a different salt, and finally the caller wipes its buffers.
+	// Settings are inputs, not shared state: none of this may change the key of encW.
+	keybuf := make([]byte, 0, len(c.Key.Secret)+len(c.Key.Salt)+160)
+	keybuf = append(keybuf, c.Key.Secret...)
+	secretW := keybuf[:len(c.Key.Secret):cap(keybuf)]
+	saltW := append(make([]byte, 0, len(c.Key.Salt)+64), c.Key.Salt...)
+	encW, e1 := encryptfs.NewEncryptFS(base, encryptfs.Settings{Secret: secretW, Salt: saltW, HostOnly: c.Key.HostOnly, Cipher: ciph})
+	if decoy, derr := encryptfs.NewEncryptFS(base, encryptfs.Settings{Secret: secretW, Salt: []byte("another-salt-for-another-filespace-0123456789"), HostOnly: c.Key.HostOnly, Cipher: ciph}); derr == nil && decoy != nil {
+		_ = decoy
+	}
+	for i := range keybuf[:cap(keybuf)] {
+		keybuf[:cap(keybuf)][i] = 0xEE
+	}
+	for i := range saltW[:cap(saltW)] {
+		saltW[:cap(saltW)][i] = 0xEE
+	}
+	v.Label("caller-reuses-and-wipes-key-buffers")
 	encR, e2 := mk(c.Key) // an independent filespace with the same secret, salt and host binding
 	encO, e3 := mk(c.Other)
 	if e1 != nil || e2 != nil || e3 != nil || encW == nil || encR == nil || encO == nil {
